@@ -23,7 +23,7 @@ pub enum Which {
 pub use crate::io::{build, decode, is_typed};
 
 fn variant_name(m: &Message) -> String {
-    let d = format!("{:?}", m);
+    let d = vtree::debug_of(m);
     d.split(|c: char| c == '(' || c == ' ').next().unwrap_or("").to_string()
 }
 
@@ -96,7 +96,7 @@ fn msg_replay(m: &Message) -> Value {
 }
 
 fn short_debug(m: &Message) -> String {
-    let s = format!("{:?}", m);
+    let s = vtree::debug_of(m);
     if s.len() > 700 {
         let mut e = 700;
         while !s.is_char_boundary(e) {
